@@ -23,18 +23,23 @@ CONSTANTS Contents,       \* content ids
           MaxRuns,
           HazardValence,  \* TRUE: the first encounter of an unknown element uses another default than later ones
           HazardNCCG,     \* TRUE: the coupling analysis reads NCCG.parameters before assigning them
-          HazardParams    \* TRUE: a run leaves a mark in the shared Parameters object (run.main only)
+          HazardParams,   \* TRUE: a run leaves a mark in the shared Parameters object (run.main only)
+          HazardCache     \* TRUE: a value derived from the parameter file is cached at class/module level
+                          \*       (first use wins for the whole process)
 
-VARIABLES valence, nccg, mainParams, hist
-vars == <<valence, nccg, mainParams, hist>>
+VARIABLES valence, nccg, mainParams, hist, cache
+vars == <<valence, nccg, mainParams, hist, cache>>
 
-Init == valence = {} /\ nccg = "unset" /\ mainParams = 0 /\ hist = <<>>
+Init == valence = {} /\ nccg = "unset" /\ mainParams = 0 /\ hist = <<>> /\ cache = "unset"
+(* which parameter file an option setting selects *)
+ParamFile(o) == IF o = "p" THEN "custom" ELSE "shipped"
+CacheUsed(o, ch) == IF HazardCache /\ ch # "unset" THEN ch ELSE ParamFile(o)
 
 ValenceUsed(c) == IF c \notin Unknown THEN 0
                   ELSE IF c \in valence THEN 4
                   ELSE IF HazardValence THEN 5 ELSE 4
 NCCGUsed(o) == IF HazardNCCG THEN nccg ELSE o
-Observation(c, o, shared) == <<c, o, ValenceUsed(c), NCCGUsed(o), shared>>
+Observation(c, o, shared) == <<c, o, ValenceUsed(c), NCCGUsed(o), shared, CacheUsed(o, cache)>>
 
 (* run.single: own Parameters object *)
 Single(c, o) ==
@@ -42,6 +47,7 @@ Single(c, o) ==
   /\ hist' = Append(hist, [key |-> <<c, o>>, obs |-> Observation(c, o, 0), via |-> "single"])
   /\ valence' = IF c \in Unknown THEN valence \cup {c} ELSE valence
   /\ nccg' = o
+  /\ cache' = IF cache = "unset" THEN ParamFile(o) ELSE cache
   /\ UNCHANGED mainParams
 (* run.main with files cs: one Parameters object for all of them *)
 RECURSIVE MainRuns(_, _, _, _, _)
@@ -50,13 +56,14 @@ MainRuns(cs, o, val, nc, mp) ==
   ELSE LET c == Head(cs)
            vu == IF c \notin Unknown THEN 0 ELSE IF c \in val THEN 4 ELSE IF HazardValence THEN 5 ELSE 4
            nu == IF HazardNCCG THEN nc ELSE o
-       IN <<[key |-> <<c, o>>, obs |-> <<c, o, vu, nu, mp>>, via |-> IF mp = 0 /\ Len(cs) = 2 THEN "main1" ELSE "main2"]>>
+       IN <<[key |-> <<c, o>>, obs |-> <<c, o, vu, nu, mp, CacheUsed(o, cache)>>, via |-> IF mp = 0 /\ Len(cs) = 2 THEN "main1" ELSE "main2"]>>
           \o MainRuns(Tail(cs), o, IF c \in Unknown THEN val \cup {c} ELSE val, o, IF HazardParams THEN mp + 1 ELSE mp)
 Main(cs, o) ==
   /\ Len(hist) + Len(cs) <= MaxRuns
   /\ hist' = hist \o MainRuns(cs, o, valence, nccg, 0)
   /\ valence' = valence \cup {cs[k] : k \in {j \in 1..Len(cs) : cs[j] \in Unknown}}
   /\ nccg' = o
+  /\ cache' = IF cache = "unset" THEN ParamFile(o) ELSE cache
   /\ UNCHANGED mainParams
 
 Next == \/ \E c \in Contents, o \in Options : Single(c, o)
@@ -64,5 +71,8 @@ Next == \/ \E c \in Contents, o \in Options : Single(c, o)
 Spec == Init /\ [][Next]_vars
 
 Pure == \A a, b \in 1..Len(hist) : hist[a].key = hist[b].key => hist[a].obs = hist[b].obs
+(* ... and equal to what the same call observes in a fresh process *)
+FreshObs(c, o) == <<c, o, IF c \in Unknown THEN 4 ELSE 0, o, 0, ParamFile(o)>>
+PureRef == \A a \in 1..Len(hist) : hist[a].obs = FreshObs(hist[a].key[1], hist[a].key[2])
 Shape == [k \in 1..Len(hist) |-> [c |-> hist[k].key[1], o |-> hist[k].key[2], via |-> hist[k].via]]
 =============================================================================
